@@ -238,6 +238,11 @@ func (c *ShadowStreamClientConn) writeToServerConn(w *ShadowStreamServerConn) (n
 		return n, err
 	}
 
+	if w.ShadowStreamConn.writeCipher == nil {
+		// w has not sent its response header yet; only its Write method does that.
+		return c.ShadowStreamConn.WriteTo(struct{ io.Writer }{w})
+	}
+
 	return c.ShadowStreamConn.writeToShadowStreamConn(&w.ShadowStreamConn)
 }
 
